@@ -143,7 +143,7 @@ def gen_observation(rng, tier: str, *, stochastic_p: float = 0.3, sleep_p: float
         "kind": "observation",
         "obs_mode": rng.choice(list(obs_modes)),
         "with_dask": True,
-        "pipeline_seed": rng.randrange(1, 2**20) if stochastic else None,
+        "pipeline_seed": (lambda s: 0 if s % 8 == 0 else s)(rng.randrange(1, 2**20)) if stochastic else None,  # 0 is a legal (falsy) seed
         "parameters": [],
     }
     scn["mode"]["parameters"] = gen_parameters(rng, scn)
